@@ -281,6 +281,10 @@ def load_corpus():
 def main(rep, tier, seed):
     rng = F.Rng(seed)
     info = F.standard_proof_phase(rep, PROP)
+    okr, rlog = F.coq_make("theories/Graph/GraphRun.vo")
+    if not okr:
+        rep.violation("model_build", {"kind": "executable model does not compile", "log": rlog[-4000:]}, no_input=True)
+        return finish(rep, info, 0, 0, {}, [])
     ok, blog, binpath = F.harness_build("c09")
     if not ok:
         rep.violation("harness_build", {"kind": "harness does not build against /repo", "log": blog[-4000:]}, no_input=True)
